@@ -224,8 +224,6 @@ def check_number(ctx, modname, getters, x, today, enter=True):
                     ctx.fail(modname, fname, v if label == 'canonical' else x, today,
                              '%s returns %r but get_birth_date returns %s' % (fname, o.value, d.value.isoformat()),
                              'agreement', 'date-agrees-with-year-month', presentation=label)
-                if d.value is None and fname == 'get_birth_year' and o.value is None:
-                    pass
     return True
 
 
